@@ -8,7 +8,7 @@ import cli_cfg
 def replay(prop, path, vxname):
     body = json.load(open(path))
     case = body.get("case", {})
-    if "cli_c18_cp" in case or "cli_c18_slow" in case or "cli_c18_pipe" in case or "cli_c08_big" in case or "cli_c18_defaults" in case or "cli_c17_names" in case or "cli_c17_regen" in case or "cli_c17_else" in case or "cli_c17" in case or "cli_c18" in case or "cli_c08" in case or "cli_c08_repeat" in case or "cli_c08_show" in case or "cli_c08_tiny" in case or "cli_c08_latest" in case:
+    if "cli_c18_cp" in case or "cli_c18_port0" in case or "cli_c18_slow" in case or "cli_c18_pipe" in case or "cli_c08_big" in case or "cli_c18_defaults" in case or "cli_c17_names" in case or "cli_c17_regen" in case or "cli_c17_else" in case or "cli_c17" in case or "cli_c18" in case or "cli_c08" in case or "cli_c08_repeat" in case or "cli_c08_show" in case or "cli_c08_tiny" in case or "cli_c08_latest" in case:
         defects = cli_cfg.replay_case(prop, case)
     elif "cli_cyc_ckpt" in case:
         n, edges = case["cli_cyc_ckpt"][:2]
